@@ -165,7 +165,8 @@ def run_tlc(sc, specdir, module, cfg=None, workers=None, timeout=900, extra=(), 
     """Run TLC on module (in specdir) with its own -metadir.  Returns TLCResult.
     A TLC crash / timeout raises ToolFailure; property violations are returned."""
     meta = tempfile.mkdtemp(prefix="meta-", dir=sc.dir)
-    java = ["java", "-XX:+UseParallelGC", "-Xss256m"]
+    # single-worker runs (trace validation shards, many side by side) use the serial collector: smaller footprint
+    java = ["java", "-XX:+UseSerialGC" if (workers == 1 and os.environ.get("VERIF_SERIALGC", "1") == "1") else "-XX:+UseParallelGC", "-Xss256m"]
     if heap:
         java.append("-Xmx%s" % heap)
     cmd = java + ["-cp", JAR, "tlc2.TLC", "-metadir", meta, "-workers", str(workers or NCPU)]
@@ -188,6 +189,9 @@ def run_tlc(sc, specdir, module, cfg=None, workers=None, timeout=900, extra=(), 
            "Error: TLC threw" in out)
     if bad:
         raise ToolFailure("TLC failed on %s/%s:\n%s" % (module, cfg, out[-6000:]))
+    # a TLC that was killed (out of memory, signal) leaves truncated output behind: never read results from it
+    if rc < 0 or rc >= 128 or "Finished in" not in out:
+        raise ToolFailure("TLC did not terminate normally on %s/%s (exit code %d):\n%s" % (module, cfg, rc, out[-3000:]))
     return res
 
 
@@ -397,6 +401,16 @@ def shard_traces(lines, k):
     return shards
 
 
+def mem_available_gb():
+    try:
+        for l in open("/proc/meminfo"):
+            if l.startswith("MemAvailable:"):
+                return int(l.split()[1]) / 1e6
+    except Exception:
+        pass
+    return 64.0
+
+
 def validate_traces(sc, d, module, cfg, trace_path, shards=None, timeout=1800, heap="3g"):
     """Trace validation: runs one single-worker TLC per shard in parallel.  Returns
     (events, traces, rejects[list of dict], tlc_states, tlc_generated)."""
@@ -408,8 +422,14 @@ def validate_traces(sc, d, module, cfg, trace_path, shards=None, timeout=1800, h
     sh = shard_traces(lines, shards or NCPU)
     results = [None] * len(sh)
     errors = []
+    # no more JVMs side by side than the memory available now allows (about 1.5 GB each)
+    gate = threading.Semaphore(max(2, min(NCPU, int(mem_available_gb() / 1.5))))
 
     def work(i):
+        with gate:
+            work1(i)
+
+    def work1(i):
         try:
             p = sc.path("shard-%s-%d.ndjson" % (os.path.basename(trace_path), i))
             with open(p, "w") as f:
